@@ -62,18 +62,26 @@ structure Cfg where
   fClearsFilters : Bool
   /-- `full_W_H` / `full_W` store the new array only once it is completely computed -/
   atomic : Bool
+  /-- `randomizeF`, `set_receive_filters` and `solve` validate their arguments BEFORE they
+      modify anything (a rejected call leaves the object as it was) -/
+  validateFirst : Bool
   deriving DecidableEq, Repr
 
 /-- the code at the design round (commit 6fe5d71) -/
-def Cfg.orig : Cfg := ⟨false, false, false⟩
+def Cfg.orig : Cfg := ⟨false, false, false, false⟩
+/-- the code after the first round of repairs (stale caches fixed, rejected calls still
+    modified the object before raising) -/
+def Cfg.round1 : Cfg := ⟨true, true, true, false⟩
 /-- the repaired code -/
-def Cfg.fixed : Cfg := ⟨true, true, true⟩
+def Cfg.fixed : Cfg := ⟨true, true, true, true⟩
 
 /-- argument of the `P` setter -/
 inductive PArg (ρ : Type) where
   | none
   | scalar (x : ρ)
   | vec (xs : List ρ)
+  /-- an array that is neither 0-dimensional nor 1-dimensional (e.g. shape `(K, 1)`) -/
+  | malformed
   deriving DecidableEq, Repr
 
 /-- `Ns` argument of `randomizeF` / `solve` -/
@@ -131,6 +139,9 @@ inductive Op (μ ρ : Type) where
   | solve (closedForm : Bool) (ns : NsArg) (p : PArg ρ) (sol : Solution μ)
   /-- `clear()` -/
   | clear
+  /-- `solver.initialize_with = value`; `accepted` = the value is one of the known modes
+      (and not `'alt_min'` on the alternating-minimisation solver) -/
+  | setInit (accepted : Bool)
   | readF | readFullF | readW | readWH | readFullWH | readFullW | readNs | readP
   deriving Repr
 
@@ -181,6 +192,7 @@ def setP (cfg : Cfg) (O : Ops μ ρ) (K : Nat) (st : State μ ρ) : PArg ρ → 
     if xs.length ≠ K then (st, .error .ValueError)
     else if xs.all O.pos then (storeP cfg st (some xs), .ok ())
     else (st, .error .ValueError)
+  | .malformed => (st, .error .ValueError)
 
 def outOf (r : Except PyErr Unit) : Out μ ρ :=
   match r with
@@ -190,9 +202,16 @@ def outOf (r : Except PyErr Unit) : Out μ ρ :=
 /-- `randomizeF(Ns, P)` -/
 def doRandomizeF (cfg : Cfg) (O : Ops μ ρ) (K : Nat) (st : State μ ρ) (drawn : μ) (ns : NsArg)
     (p : PArg ρ) : State μ ρ × Out μ ρ :=
-  match setP cfg O K (clearTx cfg st) p with
-  | (st1, .error e) => (st1, .err e)
-  | (st1, .ok _) => ({ st1 with f := some (O.normalize drawn), ns := some (ns.expand K) }, .unit)
+  if cfg.validateFirst then
+    -- repaired: the power is assigned (validated) first, then the precoder is cleared
+    match setP cfg O K st p with
+    | (_, .error e) => (st, .err e)
+    | (st1, .ok _) =>
+      ({ clearTx cfg st1 with f := some (O.normalize drawn), ns := some (ns.expand K) }, .unit)
+  else
+    match setP cfg O K (clearTx cfg st) p with
+    | (st1, .error e) => (st1, .err e)
+    | (st1, .ok _) => ({ st1 with f := some (O.normalize drawn), ns := some (ns.expand K) }, .unit)
 
 /-- `set_precoders(F, full_F, P)` -/
 def doSetPrecoders (cfg : Cfg) (O : Ops μ ρ) (st : State μ ρ) (f fullF : Option μ)
@@ -209,12 +228,14 @@ def doSetPrecoders (cfg : Cfg) (O : Ops μ ρ) (st : State μ ρ) (f fullF : Opt
       | none => fullF.map O.normalize
     ({ st2 with fullF := fullF, f := fNew, ns := fNew.map O.ncols }, .unit)
 
-/-- `set_receive_filters(W_H, W)` (the filters are cleared before the arguments are checked) -/
-def doSetFilters (st : State μ ρ) (wH w : Option μ) : State μ ρ × Out μ ρ :=
+/-- `set_receive_filters(W_H, W)` (the design-round code cleared the filters before it checked
+    the arguments) -/
+def doSetFilters (cfg : Cfg) (st : State μ ρ) (wH w : Option μ) : State μ ρ × Out μ ρ :=
   let st1 := clearRx st
+  let rej := if cfg.validateFirst then st else st1
   match wH, w with
-  | none, none => (st1, .err .RuntimeError)
-  | some _, some _ => (st1, .err .RuntimeError)
+  | none, none => (rej, .err .RuntimeError)
+  | some _, some _ => (rej, .err .RuntimeError)
   | _, _ => ({ st1 with w := w, wH := wH }, .unit)
 
 /-- `solve(Ns, P)` seen from the eight attributes -/
@@ -222,7 +243,9 @@ def doSolve (cfg : Cfg) (O : Ops μ ρ) (K : Nat) (st : State μ ρ) (closedForm
     (p : PArg ρ) (sol : Solution μ) : State μ ρ × Out μ ρ :=
   if closedForm && K != 3 then (st, .err .AssertionError)
   else
-    match setP cfg O K { st with ns := some (ns.expand K) } p with
+    -- the design-round code stored `_Ns` before the power setter validated `P`
+    let st0 := if cfg.validateFirst then st else { st with ns := some (ns.expand K) }
+    match setP cfg O K st0 p with
     | (st1, .error e) => (st1, .err e)
     | (st1, .ok _) =>
       let st2 := clearRx (clearTx cfg st1)
@@ -307,9 +330,10 @@ def step (cfg : Cfg) (O : Ops μ ρ) (K : Nat) (st : State μ ρ) : Op μ ρ →
   | .setP v => let r := setP cfg O K st v; (r.1, outOf r.2)
   | .randomizeF drawn ns p => doRandomizeF cfg O K st drawn ns p
   | .setPrecoders f fullF p => doSetPrecoders cfg O st f fullF p
-  | .setFilters wH w => doSetFilters st wH w
+  | .setFilters wH w => doSetFilters cfg st wH w
   | .solve cf ns p sol => doSolve cfg O K st cf ns p sol
   | .clear => ({ clearRx (clearTx cfg st) with p := none, ns := none }, .unit)
+  | .setInit accepted => (st, if accepted then .unit else .err .RuntimeError)
   | .readF => (st, .arr st.f)
   | .readFullF => let r := readFullF O K st; (r.1, outArr r.2)
   | .readW => let r := readW O st; (r.1, .arr r.2)
